@@ -15,8 +15,25 @@ import (
 // This handles both keyword tokens and identifier tokens with matching literal values
 // (needed because some keywords like DATA, NO may be tokenized as identifiers)
 func (p *Parser) isTokenMatch(keyword string) bool {
+	// The content of a string literal, a quoted name, a number or a
+	// placeholder is never a keyword, whatever it spells.
+	if p.currentIsLiteralToken() {
+		return false
+	}
 	// Check if token literal matches the keyword (case-insensitive)
 	return strings.EqualFold(p.currentToken.Literal, keyword)
+}
+
+// currentIsLiteralToken reports whether the current token is a literal or a
+// quoted name, i.e. a token whose text can never be read as a keyword.
+func (p *Parser) currentIsLiteralToken() bool {
+	switch p.currentToken.Type {
+	case models.TokenTypeString, models.TokenTypeSingleQuotedString, models.TokenTypeDoubleQuotedString,
+		models.TokenTypeDollarQuotedString, models.TokenTypeTripleSingleQuotedString, models.TokenTypeTripleDoubleQuotedString,
+		models.TokenTypeNumber, models.TokenTypePlaceholder:
+		return true
+	}
+	return false
 }
 
 // parseCreateStatement parses CREATE statements (TABLE, VIEW, MATERIALIZED VIEW, INDEX)
